@@ -361,6 +361,163 @@ def run_interleaved(ctx, rng):
         ctx.oracle(s["size"] == sum(len(b) for b in want.values()), case, {"why": "total size does not match the data (interleaved stagings)", **who, "size": s["size"]})
 
 
+ARRIVALS = ("full", "shallow", "interrupted", "sibling", "never")
+DECAYS = ("none", "damaged_checked", "files_deleted", "dir_object_deleted")
+
+
+def run_store_with_past(ctx, rng):
+    """The round trip into a store that is NOT fresh: the directory (or part of it) reached the store earlier and the
+    store has lived since.  How it arrived: a full transfer; a transfer with the default shallow=True; a full transfer
+    whose uploads failed for some files; only a sibling directory sharing some contents was stored; not at all.  What
+    happened afterwards: nothing; some file objects rotted and the fsck-style `odb.check()` removed them; some file
+    objects were deleted (`odb.delete`, what a partial clean-up does); the directory object itself was deleted.  Then
+    the user stages the very same, untouched directory (again, or reuses the first staging) and transfers it with
+    shallow=False - 'staging it, transferring the staged objects into a store' - and checks it out both ways.  The
+    property does not care what the store looked like before: the round trip must reproduce the data."""
+    from dvc_objects.errors import ObjectFormatError
+
+    from dvc_data.hashfile import load
+    from dvc_data.hashfile.build import build
+    from dvc_data.hashfile.checkout import checkout
+    from dvc_data.hashfile.meta import Meta
+    from dvc_data.hashfile.state import State
+    from dvc_data.hashfile.transfer import transfer
+    from dvc_data.hashfile.tree import Tree
+    from dvc_data.index import DataIndex, DataIndexEntry
+    from dvc_data.index.checkout import apply, compare
+    from dvc_data.index.index import ObjectStorage
+
+    from .util import bump_mtime
+
+    fs = stores.fs_local()
+    root = ctx.mkdtemp()
+    files = gen.rand_tree(rng, max_files=rng.choice([2, 3, 6]), max_depth=rng.choice([0, 2, 3]))
+    ws = os.path.join(root, "src")
+    gen.materialize(ws, files, rng)
+    local = rng.random() < 0.5
+    link = rng.choice(["copy", "hardlink", "symlink"])
+    use_state = rng.random() < 0.5
+    st = State(root_dir=root, tmp_dir=os.path.join(root, "tmp")) if use_state else None
+    cfg = {"state": st} if st else {}
+    odb = stores.make_odb(os.path.join(root, "odb"), local=local, type=[link], **cfg)
+    want = {"/".join(k): v for k, v in files.items()}
+    file_oids = sorted(set(md5hex(v) for v in files.values()))
+    arrival = rng.choices(ARRIVALS, weights=[8, 4, 3, 3, 1])[0]
+    # (only a store that got file objects can lose them: the decays that eat files go mostly with the full arrival)
+    decay = rng.choices(DECAYS, weights=[1, 4, 4, 1] if arrival == "full" else [3, 1, 1, 1])[0]
+    restage = rng.random() < 0.5
+    nvict = rng.randrange(1, len(file_oids) + 1)
+    case = {"scenario": "store-with-a-past", "tree": _short(want), "local": local, "link": link, "state": use_state,
+            "arrival": arrival, "decay": decay, "staged_again": restage}
+    notes = []
+
+    def body():
+        staging, meta, obj = build(odb, ws, fs, "md5")
+        hi = obj.hash_info
+        # ---- how the directory first reached the store
+        if arrival == "full":
+            transfer(staging, odb, {hi}, shallow=False)
+        elif arrival == "shallow":
+            transfer(staging, odb, {hi})  # the defaults
+        elif arrival == "interrupted":
+            failing = set(rng.sample(file_oids, nvict))
+            with stores.Faults(odb, failing).active():
+                r0 = transfer(staging, odb, {hi}, shallow=False)
+            notes.append("first transfer reported %d failed" % len(r0.failed))
+        elif arrival == "sibling":
+            sib = os.path.join(root, "sibling")
+            keep = rng.sample(sorted(files), rng.randrange(1, len(files) + 1))
+            sfiles = {k: files[k] for k in keep}
+            sfiles[("only-in-sibling",)] = b"sibling " + bytes(rng.randrange(256) for _ in range(6))
+            gen.materialize(sib, sfiles, rng)
+            s_staging, _, s_obj = build(odb, sib, fs, "md5")
+            transfer(s_staging, odb, {s_obj.hash_info}, shallow=False)
+        # ---- what happened to the store since
+        present = [o for o in file_oids if o in set(stores.listing_of(odb.path))]
+        victims = rng.sample(present, min(nvict, len(present)))
+        if decay == "damaged_checked":
+            for oid in victims:
+                p = odb.oid_to_path(oid)
+                old = stores.read_obj(odb.path, oid)
+                os.chmod(p, 0o644)
+                os.remove(p)
+                with open(p, "wb") as fh:  # another size, another inode, a later mtime: no cache can vouch for it
+                    fh.write(old[: len(old) // 2] + b"\x00bit rot\x00" + old[len(old) // 2:])
+                bump_mtime(p)
+                try:
+                    odb.check(oid, check_hash=True)
+                    notes.append("check() accepted the damaged object " + oid)
+                except ObjectFormatError:
+                    pass
+        elif decay == "files_deleted":
+            for oid in victims:
+                odb.delete(oid)
+        elif decay == "dir_object_deleted":
+            if hi.value in stores.listing_of(odb.path):
+                odb.delete(hi.value)
+        before = stores.listing_of(odb.path)
+        damaged_left = stores.intact_violations(odb.path)
+        # ---- the round trip proper
+        if restage:
+            staging, meta, obj = build(odb, ws, fs, "md5")
+        r = transfer(staging, odb, {obj.hash_info}, shallow=False)
+        loaded = Tree.load(odb, obj.hash_info)
+        out = os.path.join(root, "out-obj")
+        k_co, v_co = safe_call(lambda: checkout(out, fs, load(odb, obj.hash_info), odb, force=True, state=st))
+        idx = DataIndex({("t",): DataIndexEntry(key=("t",), meta=Meta(isdir=True), hash_info=obj.hash_info)})
+        idx.storage_map.add_cache(ObjectStorage((), odb))
+        out2 = os.path.join(root, "out-idx")
+        os.makedirs(out2)
+        errs = []
+        k_ap, v_ap = safe_call(lambda: apply(compare(None, idx), out2, fs, update_meta=False, onerror=lambda *a: errs.append(str(a[1])), state=st))
+        return {"oid": obj.oid, "first_oid": hi.value, "before": before, "damaged_left": damaged_left, "failed": len(r.failed),
+                "built": sorted(("/".join(k), h.value) for k, _, h in obj), "loaded": sorted(("/".join(k), h.value) for k, _, h in loaded),
+                "nfiles": meta.nfiles, "size": meta.size, "checkout": v_co if k_co != "ok" else None, "apply": v_ap if k_ap != "ok" else None,
+                "out": walk_files(out), "out_idx": _snapshot(os.path.join(out2, "t")), "errors": errs,
+                "store": list_store(odb.path), "source_now": walk_files(ws)}
+
+    try:
+        kind, o = safe_call(body)
+    finally:
+        if st:
+            st.close()
+    if notes:
+        case["notes"] = notes
+    if kind != "ok":
+        ctx.case(case)
+        ctx.count("store_with_past")
+        ctx.oracle(False, case, {"why": "round trip into a store with a past raised", "impl": o})
+        return
+    dir_there = o["first_oid"] in o["before"]
+    lacking = [x for x in file_oids if x not in o["before"]]
+    case["store_before"] = {"dir_object": dir_there, "files_lacking": len(lacking), "files": len(file_oids)}
+    # non-trivial: the store was neither fresh nor complete when the round trip started
+    ctx.case(case, nontrivial=bool(o["before"]) and (bool(lacking) or not dir_there))
+    ctx.count("store_with_past")
+    ctx.count("past: arrival=%s decay=%s" % (arrival, decay))
+    ctx.count("past: before the round trip dir_object=%s files_lacking=%s" % (dir_there, "none" if not lacking else "all" if len(lacking) == len(file_oids) else "some"))
+    if o["source_now"] != want or o["damaged_left"]:  # harness self-checks: the premises of the oracles below
+        ctx.oracle(False, case, {"why": "HARNESS: the source changed, or a damaged object survived check() in the prepared store", "damaged": o["damaged_left"], "notes": notes})
+        return
+    exp_entries = sorted(("/".join(k), md5hex(v)) for k, v in files.items())
+    ctx.oracle(o["failed"] == 0 and o["checkout"] is None and o["out"] == want, case,
+               {"why": "object-level round trip into a store that held part of the data before does not reproduce the data",
+                "failed": o["failed"], "checkout": o["checkout"], "missing": sorted(set(want) - set(o["out"])), "extra": sorted(set(o["out"]) - set(want)),
+                "different": sorted(k for k in want if k in o["out"] and o["out"][k] != want[k])})
+    ctx.oracle(o["apply"] is None and o["out_idx"] == want and not o["errors"], case,
+               {"why": "index-level round trip (compare/apply) out of a store that held part of the data before does not reproduce the data",
+                "apply": o["apply"], "errors": o["errors"][:3], "missing": sorted(set(want) - set(o["out_idx"])), "extra": sorted(set(o["out_idx"]) - set(want)),
+                "different": sorted(k for k in want if k in o["out_idx"] and o["out_idx"][k] != want[k])})
+    ctx.oracle(o["oid"] == o["first_oid"] and o["built"] == exp_entries and o["loaded"] == exp_entries, case,
+               {"why": "built or reloaded listing differs from the data (store with a past)", "built": o["built"][:4], "loaded": o["loaded"][:4]})
+    ctx.oracle(o["nfiles"] == len(files) and o["size"] == sum(len(v) for v in files.values()), case,
+               {"why": "file count / total size do not match the data (store with a past)", "nfiles": o["nfiles"], "size": o["size"]})
+    held = {x: v[0] for x, v in o["store"].items()}
+    ctx.oracle(all(held.get(x) == x for x in file_oids) and held.get(o["oid"]) == o["oid"].split(".")[0], case,
+               {"why": "after the transfer the store does not hold every object of the directory under its own name",
+                "absent": sorted(x for x in file_oids + [o["oid"]] if x not in held), "foreign_bytes": sorted(x for x in file_oids if x in held and held[x] != x)})
+
+
 def run(ctx):
     ctx.rule = (
         "directory trees of 1-9 files at depth 0-4 with odd names (non-ASCII, spaces, quotes, backslash, newline, leading dots, "
@@ -371,13 +528,21 @@ def run(ctx):
         "contents are all staged for ONE store before anything is transferred; 1..n-1 of them are then edited in place (same size / grown), "
         "lose files, gain a file or are removed, and optionally staged again; every staging whose source was not touched since it was staged "
         "is transferred in a random order and must round trip exactly (object checkout and index compare/apply, listing, count, size); "
-        "non-trivial there = a moved path shares a content with a disturbed one"
+        "non-trivial there = a moved path shares a content with a disturbed one. "
+        "Plus stores with a past (histogram key store_with_past): the round trip of an untouched directory of 1-6 files into a store that the "
+        "directory reached before - by a full transfer, a default shallow=True transfer, a full transfer with failed uploads for 1..n files, "
+        "only through a sibling directory sharing contents, or never - and that has since lost 1..n file objects to bit rot + odb.check(), "
+        "lost them to odb.delete(), lost the directory object, or nothing; staged again or from the first staging, transfer(shallow=False), "
+        "object checkout and index compare/apply into fresh locations must reproduce the data, the listing reloads as built, count/size match, "
+        "and the store ends up holding every object of the directory under its own name; non-trivial there = the store was neither empty nor complete"
     )
     ctx.assumptions = ["paths are absolute and normalised (the slicing in _build_tree relies on it)", "empty directories are not tracked"]
     for _ in range(ctx.n(110, 1200)):
         run_case(ctx, ctx.rng)
     for _ in range(ctx.n(40, 400)):
         run_interleaved(ctx, ctx.rng)
+    for _ in range(ctx.n(60, 600)):
+        run_store_with_past(ctx, ctx.rng)
 
 
 def search(ctx):
@@ -385,6 +550,8 @@ def search(ctx):
         run_case(ctx, ctx.rng)
     for _ in range(400):
         run_interleaved(ctx, ctx.rng)
+    for _ in range(400):
+        run_store_with_past(ctx, ctx.rng)
 
 
 def replay(ctx, payload):
